@@ -94,11 +94,7 @@ def CS.leaf (f : Font) (st : CS) (t : Tok) (k : Leaf) : CS :=
     else
       { st with cur := some { c with toks := t :: (st.opens ++ c.toks) }, last := k, opens := [] }
 
-/-- `brq`: mirror of an implementation quirk — `removeLastWhitespace` only looks at the last leaf
-    of the line, which after `x <br>` is the (empty) box of the `<br>`: the collapsible space before a
-    `<br>` is NOT removed.  The `<br>` box then behaves as a zero-width unit separated from `x` by an
-    ordinary space.  With `brq = false` the space is dropped (CSS Text 3 §4.1.2). -/
-def CS.step (f : Font) (brq : Bool) (st : CS) : Tok → CS
+def CS.step (f : Font) (st : CS) : Tok → CS
   | .word n => st.leaf f (.word n) .letter
   | .atom w h => st.leaf f (.atom w h) .atomic
   | .space =>
@@ -108,23 +104,18 @@ def CS.step (f : Font) (brq : Bool) (st : CS) : Tok → CS
   | .opn e => { st with opens := .opn e :: st.opens }
   | .cls e =>
     match st.cur with
-    | some c => if st.opens.isEmpty then { st with cur := some { c with toks := .cls e :: c.toks } }
-                else { st with opens := .cls e :: st.opens }
+    | some c => if st.opens.isEmpty ∧ st.sp = false then { st with cur := some { c with toks := .cls e :: c.toks } }
+                else { st with opens := .cls e :: st.opens }  -- after a space every edge waits for the next leaf
     | none => { st with opens := .cls e :: st.opens }
   | .br =>
     match st.cur with
-    | some c =>
-      if brq ∧ st.sp then
-        { st with done := { gap := f.s, forced := false, toks := st.opens } :: c :: st.done, cur := none,
-                  last := .none, opens := [], sp := false, forced := true }
-      else
-        { st with done := { c with toks := st.opens ++ c.toks } :: st.done, cur := none,
-                  last := .none, opens := [], sp := false, forced := true }
+    | some c => { st with done := { c with toks := st.opens ++ c.toks } :: st.done, cur := none,
+                          last := .none, opens := [], sp := false, forced := true }
     | none => { st with done := { gap := 0, forced := st.forced, toks := st.opens } :: st.done,
                         opens := [], sp := false, forced := true }
 
-def chunk (f : Font) (brq : Bool) (ts : List Tok) : List Item :=
-  ((ts.foldl (CS.step f brq) {}).flush.map fun a => { a with toks := a.toks.reverse }).reverse
+def chunk (f : Font) (ts : List Tok) : List Item :=
+  ((ts.foldl (CS.step f) {}).flush.map fun a => { a with toks := a.toks.reverse }).reverse
 
 /-! ## greedy line breaking -/
 
